@@ -319,6 +319,27 @@ theorem lex_top_alpha {c : Nat} (h1 : isLam c = false) (h2 : c ≠ cLparen) (h3 
     tokenizeClaAux cls .top i (c :: s) = tokenizeClaAux cls (.name [c]) (i + 1) s := by
   simp [tokenizeClaAux, h1, h2, h3, h4, h5]
 
+/-- the first character of a binder name: a letter starts the name (the dot is not tested for: an
+empty name cannot be ended, repair F12 of the crate) … -/
+theorem lex_lam_first {c : Nat} (hc : cls.isAlpha c = true) (name : List Nat) (i : Nat)
+    (s : List Nat) :
+    tokenizeClaAux cls (.lam name true) i (c :: s)
+      = tokenizeClaAux cls (.lam (name ++ [c]) false) (i + 1) s := by
+  simp [tokenizeClaAux, hc]
+
+/-- … and anything else — the dot included, if it is not a letter — is an error -/
+theorem lex_lam_first_bad {c : Nat} (hc : cls.isAlpha c = false) (name : List Nat) (i : Nat)
+    (s : List Nat) :
+    tokenizeClaAux cls (.lam name true) i (c :: s) = .error (.InvalidCharacter i c) := by
+  simp [tokenizeClaAux, hc]
+
+/-- after the first character of a binder name, a character other than the dot that is not
+alphanumeric is an error -/
+theorem lex_lam_next_bad {c : Nat} (hd : c ≠ cDot) (hc : cls.isAlnum c = false) (name : List Nat)
+    (i : Nat) (s : List Nat) :
+    tokenizeClaAux cls (.lam name false) i (c :: s) = .error (.InvalidCharacter i c) := by
+  simp [tokenizeClaAux, hc, hd]
+
 /-- inside a binder, after its first character: alphanumeric characters up to the dot -/
 theorem lex_lam_rest (s : List Nat) (n : List Nat) :
     ∀ (acc : List Nat) (i : Nat), (∀ d ∈ n, cls.isAlnum d = true ∧ d ≠ cDot) →
@@ -337,26 +358,26 @@ theorem lex_lam_rest (s : List Nat) (n : List Nat) :
 theorem lex_lam (s : List Nat) {n : List Nat} (hn : WfName cls n) (i : Nat) :
     tokenizeClaAux cls (.lam [] true) i (n ++ cDot :: s)
       = (CLambda n :: ·) <$> tokenizeClaAux cls .top (i + n.length + 1) s := by
-  obtain ⟨⟨c, cs, rfl, hal, _, hrest⟩, hall⟩ := hn
-  have hc : c ≠ cDot := hall c (by simp)
+  obtain ⟨⟨c, cs, rfl, hal, _, hrest⟩, hall, _⟩ := hn
   have := lex_lam_rest (cls := cls) s cs [c] (i + 1)
     (fun d hd => ⟨hrest d hd, hall d (by simp [hd])⟩)
-  simp only [List.cons_append, tokenizeClaAux, hc, beq_iff_eq, if_false, hal, Bool.true_and,
-    if_true, List.nil_append, this, List.length_cons]
+  rw [List.cons_append, lex_lam_first hal, List.nil_append, this]
+  simp only [List.cons_append, List.nil_append, List.length_cons]
   congr 2; omega
 
-/-- inside a variable name: alphanumeric characters are accumulated -/
+/-- inside a variable name: alphanumeric characters other than the glyph `λ` are accumulated -/
 theorem lex_name_rest (s : List Nat) (n : List Nat) :
-    ∀ (acc : List Nat) (i : Nat), (∀ d ∈ n, cls.isAlnum d = true) →
+    ∀ (acc : List Nat) (i : Nat), (∀ d ∈ n, cls.isAlnum d = true ∧ d ≠ cLambda) →
       tokenizeClaAux cls (.name acc) i (n ++ s)
         = tokenizeClaAux cls (.name (acc ++ n)) (i + n.length) s := by
   induction n with
   | nil => intro acc i _; simp
   | cons d n ih =>
     intro acc i h
-    have h1 := h d (by simp)
+    obtain ⟨h1, h2⟩ := h d (by simp)
+    have h3 : (d != cLambda) = true := by simp [h2]
     have := ih (acc ++ [d]) (i + 1) (fun e he => h e (by simp [he]))
-    simp only [List.cons_append, tokenizeClaAux, h1, if_true, this,
+    simp only [List.cons_append, tokenizeClaAux, h1, h3, Bool.and_self, if_true, this,
       List.append_assoc, List.length_cons]
     congr 1; omega
 
@@ -393,10 +414,11 @@ theorem ws_ne_backslash (hcls : ClsOk cls) {c : Nat} (hc : cls.isWs c = true) : 
   have := (hcls.1 _ hc).1
   revert this; decide
 
-/-- a character that is not alphanumeric ends a variable name and is then lexed at top level:
-mode `.name` on it is `CName acc ::` what mode `.top` does on it -/
-theorem lex_name_nonalnum (acc : List Nat) (i : Nat) {c : Nat} (hc : cls.isAlnum c = false)
-    (s : List Nat) :
+/-- a character that does not continue a variable name (the test of the code: "alphanumeric and
+not the glyph `λ`" fails) ends it and is then lexed at top level: mode `.name` on it is
+`CName acc ::` what mode `.top` does on it -/
+theorem lex_name_break (acc : List Nat) (i : Nat) {c : Nat}
+    (hc : (cls.isAlnum c && c != cLambda) = false) (s : List Nat) :
     tokenizeClaAux cls (.name acc) i (c :: s)
       = (CName acc :: ·) <$> tokenizeClaAux cls .top i (c :: s) := by
   simp only [tokenizeClaAux, hc, Bool.false_eq_true, if_false]
@@ -404,25 +426,61 @@ theorem lex_name_nonalnum (acc : List Nat) (i : Nat) {c : Nat} (hc : cls.isAlnum
     cases cls.isAlpha c <;>
     simp only [Bool.false_eq_true, if_false, if_true, except_map_map] <;> rfl
 
+/-- a character that is not alphanumeric ends a variable name and is then lexed at top level -/
+theorem lex_name_nonalnum (acc : List Nat) (i : Nat) {c : Nat} (hc : cls.isAlnum c = false)
+    (s : List Nat) :
+    tokenizeClaAux cls (.name acc) i (c :: s)
+      = (CName acc :: ·) <$> tokenizeClaAux cls .top i (c :: s) :=
+  lex_name_break acc i (by rw [hc]; rfl) s
+
+/-- the glyph `λ` ends a variable name and is then lexed at top level, whatever its classification
+(repair F11 of the crate) -/
+theorem lex_name_lambda_top (acc : List Nat) (i : Nat) (s : List Nat) :
+    tokenizeClaAux cls (.name acc) i (cLambda :: s)
+      = (CName acc :: ·) <$> tokenizeClaAux cls .top i (cLambda :: s) :=
+  lex_name_break acc i (by simp) s
+
 /-- a backslash ends a variable name and opens a binder -/
 theorem lex_name_backslash (hcls : ClsOk cls) (acc : List Nat) (i : Nat) (s : List Nat) :
     tokenizeClaAux cls (.name acc) i (cBackslash :: s)
       = (CName acc :: ·) <$> tokenizeClaAux cls (.lam [] true) (i + 1) s := by
   rw [lex_name_nonalnum acc i (backslash_not_alnum hcls), lex_top_glyph (by decide)]
 
-/-- a non-alphanumeric character (or the end of the input) ends a variable name and is then lexed
-at top level -/
+/-- the glyph `λ` ends a variable name and opens a binder -/
+theorem lex_name_lambda (acc : List Nat) (i : Nat) (s : List Nat) :
+    tokenizeClaAux cls (.name acc) i (cLambda :: s)
+      = (CName acc :: ·) <$> tokenizeClaAux cls (.lam [] true) (i + 1) s := by
+  rw [lex_name_lambda_top, lex_top_glyph (by decide)]
+
+/-- a glyph is the backslash or `λ` -/
+theorem isLam_cases {g : Nat} (hg : isLam g = true) : g = cBackslash ∨ g = cLambda := by
+  simpa [isLam] using hg
+
+/-- either glyph ends a variable name and opens a binder -/
+theorem lex_name_glyph (hcls : ClsOk cls) (acc : List Nat) (i : Nat) {g : Nat}
+    (hg : isLam g = true) (s : List Nat) :
+    tokenizeClaAux cls (.name acc) i (g :: s)
+      = (CName acc :: ·) <$> tokenizeClaAux cls (.lam [] true) (i + 1) s := by
+  rcases isLam_cases hg with rfl | rfl
+  · exact lex_name_backslash hcls acc i s
+  · exact lex_name_lambda acc i s
+
+/-- a non-alphanumeric character, the glyph `λ`, or the end of the input ends a variable name and
+is then lexed at top level -/
 theorem lex_name_end {s : List Nat} (hs : NameEnd cls s) (acc : List Nat) (i : Nat) :
     tokenizeClaAux cls (.name acc) i s = (CName acc :: ·) <$> tokenizeClaAux cls .top i s := by
   cases s with
   | nil => simp only [tokenizeClaAux]; rfl
-  | cons c s => exact lex_name_nonalnum acc i hs s
+  | cons c s =>
+    rcases hs with hs | rfl
+    · exact lex_name_nonalnum acc i hs s
+    · exact lex_name_lambda_top acc i s
 
 /-- the first character of a well-formed name is (alphanumeric, hence) not whitespace and not a
 parenthesis -/
 theorem wfName_head (hcls : ClsOk cls) {c : Nat} {cs : List Nat} (hn : WfName cls (c :: cs)) :
     cls.isAlpha c = true ∧ isLam c = false ∧ cls.isWs c = false ∧ c ≠ cLparen ∧ c ≠ cRparen := by
-  obtain ⟨⟨c', cs', e, hal, hg, _⟩, _⟩ := hn
+  obtain ⟨⟨c', cs', e, hal, hg, _⟩, _, _⟩ := hn
   obtain ⟨rfl, rfl⟩ := List.cons.inj e
   obtain ⟨h1, h2, h3, _⟩ := alnum_facts hcls (hcls.2.1 _ hal)
   exact ⟨hal, hg, h1, h2, h3⟩
@@ -430,20 +488,22 @@ theorem wfName_head (hcls : ClsOk cls) {c : Nat} {cs : List Nat} (hn : WfName cl
 /-- every character of a well-formed name is alphanumeric -/
 theorem wfName_alnum (hcls : ClsOk cls) {n : List Nat} (hn : WfName cls n) :
     ∀ d ∈ n, cls.isAlnum d = true := by
-  obtain ⟨⟨c, cs, rfl, hal, _, hrest⟩, _⟩ := hn
+  obtain ⟨⟨c, cs, rfl, hal, _, hrest⟩, _, _⟩ := hn
   intro d hd
   rcases List.mem_cons.1 hd with rfl | hd
   · exact hcls.2.1 _ hal
   · exact hrest d hd
 
-/-- a whole variable name followed by a non-alphanumeric character or the end of the input -/
+/-- a whole variable name followed by a non-alphanumeric character, the glyph `λ` or the end of
+the input -/
 theorem lex_name (hcls : ClsOk cls) {n s : List Nat} (hn : WfName cls n) (hs : NameEnd cls s)
     (i : Nat) :
     tokenizeClaAux cls .top i (n ++ s)
       = (CName n :: ·) <$> tokenizeClaAux cls .top (i + n.length) s := by
-  obtain ⟨⟨c, cs, rfl, hal, hg, hrest⟩, hall⟩ := hn
-  obtain ⟨_, _, h1, h2, h3⟩ := wfName_head hcls ⟨⟨c, cs, rfl, hal, hg, hrest⟩, hall⟩
-  rw [List.cons_append, lex_top_alpha hg h2 h3 h1 hal, lex_name_rest s cs [c] (i + 1) hrest,
+  obtain ⟨⟨c, cs, rfl, hal, hg, hrest⟩, hall, hnl⟩ := hn
+  obtain ⟨_, _, h1, h2, h3⟩ := wfName_head hcls ⟨⟨c, cs, rfl, hal, hg, hrest⟩, hall, hnl⟩
+  rw [List.cons_append, lex_top_alpha hg h2 h3 h1 hal,
+    lex_name_rest s cs [c] (i + 1) (fun d hd => ⟨hrest d hd, hnl d (by simp [hd])⟩),
     lex_name_end hs]
   simp only [List.cons_append, List.nil_append, List.length_cons]
   congr 2; omega
@@ -476,28 +536,36 @@ theorem parse_cla_render_indep (cls : CharCls) (hcls : Cl.ClsOk cls) (cts : List
 
 /-- for Rust's classification the dot is not alphanumeric (checked by the harness for all code
 points); with that fact and `ClsOk` a well-formed name is just: a letter other than a glyph, then
-alphanumeric characters -/
+alphanumeric characters other than the glyph `λ` -/
 theorem wfName_of_unicode (cls : CharCls) (hcls : Cl.ClsOk cls)
     (hdot : cls.isAlnum cDot = false)
     (c : Nat) (cs : List Nat) (hc : cls.isAlpha c = true) (hg : isLam c = false)
-    (hcs : ∀ d ∈ cs, cls.isAlnum d = true) : Cl.WfName cls (c :: cs) := by
-  refine ⟨⟨c, cs, rfl, hc, hg, hcs⟩, ?_⟩
-  have hb : ∀ d, cls.isAlnum d = true → d ≠ cDot := by
-    rintro d hd rfl
-    rw [hdot] at hd; cases hd
-  intro d hd
-  rcases List.mem_cons.1 hd with rfl | hd
-  · exact hb _ (hcls.2.1 _ hc)
-  · exact hb _ (hcs d hd)
+    (hcs : ∀ d ∈ cs, cls.isAlnum d = true ∧ d ≠ cLambda) : Cl.WfName cls (c :: cs) := by
+  refine ⟨⟨c, cs, rfl, hc, hg, fun d hd => (hcs d hd).1⟩, ?_, ?_⟩
+  · have hb : ∀ d, cls.isAlnum d = true → d ≠ cDot := by
+      rintro d hd rfl
+      rw [hdot] at hd; cases hd
+    intro d hd
+    rcases List.mem_cons.1 hd with rfl | hd
+    · exact hb _ (hcls.2.1 _ hc)
+    · exact hb _ (hcs d hd).1
+  · intro d hd
+    rcases List.mem_cons.1 hd with rfl | hd
+    · rintro rfl; revert hg; decide
+    · exact (hcs d hd).2
 
 /-- … and conversely, so under these facts `WfName` IS "a letter other than a glyph followed by
-alphanumeric characters" -/
+alphanumeric characters other than the glyph `λ`" -/
 theorem wfName_iff_unicode (cls : CharCls) (hcls : Cl.ClsOk cls)
     (hdot : cls.isAlnum cDot = false) (n : List Nat) :
     Cl.WfName cls n ↔
       ∃ c cs, n = c :: cs ∧ cls.isAlpha c = true ∧ isLam c = false ∧
-        ∀ d ∈ cs, cls.isAlnum d = true :=
-  ⟨fun h => h.1, fun ⟨c, cs, e, hc, hg, hcs⟩ => e ▸ wfName_of_unicode cls hcls hdot c cs hc hg hcs⟩
+        ∀ d ∈ cs, cls.isAlnum d = true ∧ d ≠ cLambda := by
+  constructor
+  · rintro ⟨⟨c, cs, rfl, hc, hg, hcs⟩, _, hnl⟩
+    exact ⟨c, cs, rfl, hc, hg, fun d hd => ⟨hcs d hd, hnl d (by simp [hd])⟩⟩
+  · rintro ⟨c, cs, rfl, hc, hg, hcs⟩
+    exact wfName_of_unicode cls hcls hdot c cs hc hg hcs
 
 /-! ### lexical errors -/
 
@@ -519,7 +587,7 @@ theorem wfName_not_endsTop (hcls : ClsOk cls) {n : List Nat} (hn : WfName cls n)
     ¬ EndsTop cls n := by
   intro h
   have hal := wfName_alnum hcls hn
-  obtain ⟨⟨c, cs, rfl, _⟩, hall⟩ := hn
+  obtain ⟨⟨c, cs, rfl, _⟩, hall, _⟩ := hn
   cases hl : (c :: cs).getLast? with
   | none => simp at hl
   | some d =>
@@ -539,7 +607,7 @@ theorem nameEnd_append {s : List Nat} (hs : NameEnd cls s) (hne : s ≠ []) (res
 
 /-- after a rendering the lexer has produced its tokens and continues at top level with whatever
 follows, provided the rendering ends at top level or — if it ends inside a name — what follows may
-end a name (it is empty or starts with a character that is not alphanumeric) -/
+end a name (it is empty or starts with a character that is not alphanumeric or is the glyph `λ`) -/
 theorem lex_prefix' (hcls : ClsOk cls) {ts : List CToken} {pre : List Nat}
     (h : Renders cls ts pre) :
     ∀ (i : Nat) (rest : List Nat), (EndsTop cls pre ∨ NameEnd cls rest) →
@@ -592,8 +660,8 @@ theorem lex_prefix (hcls : ClsOk cls) {ts : List CToken} {pre : List Nat}
   fun he i rest => lex_prefix' hcls h i rest (Or.inl he)
 
 /-- renderings compose: after a rendering that ends at top level — or, if it ends inside a name,
-when what follows may end a name (the end of the input or a character that is not alphanumeric:
-whitespace, a parenthesis, a backslash …) — any rendering may follow -/
+when what follows may end a name (the end of the input, a character that is not alphanumeric —
+whitespace, a parenthesis, a backslash … — or the glyph `λ`) — any rendering may follow -/
 theorem renders_append (hcls : ClsOk cls) {ts₁ ts₂ : List CToken} {pre s : List Nat}
     (h₁ : Renders cls ts₁ pre) (h₂ : Renders cls ts₂ s) :
     (EndsTop cls pre ∨ NameEnd cls s) → Renders cls (ts₁ ++ ts₂) (pre ++ s) := by
@@ -636,8 +704,23 @@ theorem nameEnd_ws_backslash (hcls : ClsOk cls) (ws s : List Nat)
     (hws : ∀ w ∈ ws, cls.isWs w = true) :
     NameEnd cls (ws ++ cBackslash :: s) := by
   cases ws with
-  | nil => exact backslash_not_alnum hcls
-  | cons w ws => exact ws_not_alnum hcls (hws w (by simp))
+  | nil => exact .inl (backslash_not_alnum hcls)
+  | cons w ws => exact .inl (ws_not_alnum hcls (hws w (by simp)))
+
+/-- a glyph (either one) may end a name -/
+theorem nameEnd_glyph (hcls : ClsOk cls) {g : Nat} (hg : isLam g = true) (s : List Nat) :
+    NameEnd cls (g :: s) := by
+  rcases isLam_cases hg with rfl | rfl
+  · exact .inl (backslash_not_alnum hcls)
+  · exact .inr rfl
+
+/-- whitespace followed by a glyph may end a name, and so may the glyph alone -/
+theorem nameEnd_ws_glyph (hcls : ClsOk cls) {g : Nat} (hg : isLam g = true) (ws s : List Nat)
+    (hws : ∀ w ∈ ws, cls.isWs w = true) :
+    NameEnd cls (ws ++ g :: s) := by
+  cases ws with
+  | nil => exact nameEnd_glyph hcls hg s
+  | cons w ws => exact .inl (ws_not_alnum hcls (hws w (by simp)))
 
 /-- inside a binder, after its first character: alphanumeric characters are accumulated -/
 theorem lex_lam_acc (rest : List Nat) (n : List Nat) :
@@ -665,7 +748,7 @@ theorem tokenizeCla_invalid_top' (cls : CharCls) (hcls : Cl.ClsOk cls)
     (hws : cls.isWs c = false) (halpha : cls.isAlpha c = false) :
     tokenizeCla cls (pre ++ c :: post) = .error (.InvalidCharacter pre.length c) := by
   unfold tokenizeCla
-  rw [lex_prefix' hcls hpre 0 (c :: post) hend]
+  rw [lex_prefix' hcls hpre 0 (c :: post) (hend.imp id Or.inl)]
   simp [tokenizeClaAux, hglyph, hlp, hrp, hws, halpha]
   rfl
 
@@ -718,18 +801,16 @@ theorem tokenizeCla_invalid_binder (cls : CharCls) (hcls : Cl.ClsOk cls)
   cases nm with
   | nil =>
     simp only [if_true] at hbad
-    simp [tokenizeClaAux, hdot, hbad]
+    rw [List.nil_append, lex_lam_first_bad hbad]
+    simp only [List.length_nil, Nat.add_zero, Nat.zero_add]
     rfl
   | cons a as =>
-    obtain ⟨ha, had, has⟩ := hnm a as rfl
+    obtain ⟨ha, _, has⟩ := hnm a as rfl
     simp only [reduceCtorEq, if_false] at hbad
     have := lex_lam_acc (cls := cls) (c :: post) as [a] (0 + pre.length + 1 + 1) has
-    simp only [List.cons_append, List.nil_append] at this
-    simp only [List.cons_append, tokenizeClaAux, had, beq_iff_eq, if_false, ha, Bool.true_and,
-      if_true, List.nil_append, this, hdot, hbad, Bool.false_and, Bool.and_false,
-      Bool.false_eq_true, List.length_cons]
+    rw [List.cons_append, lex_lam_first ha, List.nil_append, this, lex_lam_next_bad hdot hbad]
     have e : 0 + pre.length + 1 + 1 + as.length = pre.length + 1 + (as.length + 1) := by omega
-    rw [e]; rfl
+    simp only [List.length_cons, e]; rfl
 
 /-- the same when the binder directly follows a variable name, which is possible with the backslash
 glyph (it ends the name): the prefix `pre` may be ANY rendering of complete tokens
@@ -744,24 +825,73 @@ theorem tokenizeCla_invalid_binder_backslash (cls : CharCls) (hcls : Cl.ClsOk cl
     tokenizeCla cls (pre ++ cBackslash :: (nm ++ c :: post))
       = .error (.InvalidCharacter (pre.length + 1 + nm.length) c) := by
   unfold tokenizeCla
-  have hne : NameEnd cls (cBackslash :: (nm ++ c :: post)) := backslash_not_alnum hcls
+  have hne : NameEnd cls (cBackslash :: (nm ++ c :: post)) := .inl (backslash_not_alnum hcls)
   rw [lex_prefix' hcls hpre 0 _ (Or.inr hne),
     lex_top_glyph (show isLam cBackslash = true by decide)]
   cases nm with
   | nil =>
     simp only [if_true] at hbad
-    simp [tokenizeClaAux, hdot, hbad]
+    rw [List.nil_append, lex_lam_first_bad hbad]
+    simp only [List.length_nil, Nat.add_zero, Nat.zero_add]
     rfl
   | cons a as =>
-    obtain ⟨ha, had, has⟩ := hnm a as rfl
+    obtain ⟨ha, _, has⟩ := hnm a as rfl
     simp only [reduceCtorEq, if_false] at hbad
     have := lex_lam_acc (cls := cls) (c :: post) as [a] (0 + pre.length + 1 + 1) has
-    simp only [List.cons_append, List.nil_append] at this
-    simp only [List.cons_append, tokenizeClaAux, had, beq_iff_eq, if_false, ha, Bool.true_and,
-      if_true, List.nil_append, this, hdot, hbad, Bool.false_and, Bool.and_false,
-      Bool.false_eq_true, List.length_cons]
+    rw [List.cons_append, lex_lam_first ha, List.nil_append, this, lex_lam_next_bad hdot hbad]
     have e : 0 + pre.length + 1 + 1 + as.length = pre.length + 1 + (as.length + 1) := by omega
-    rw [e]; rfl
+    simp only [List.length_cons, e]; rfl
+
+/-- the same for EITHER glyph directly after a variable name (since the repair F11 of the crate the
+glyph `λ` ends a name like the backslash does; e.g. `xλ1` ↦ `InvalidCharacter 2 '1'`) -/
+theorem tokenizeCla_invalid_binder_glyph (cls : CharCls) (hcls : Cl.ClsOk cls)
+    (ts₀ : List CToken) (pre : List Nat) (g : Nat) (nm : List Nat) (c : Nat) (post : List Nat)
+    (hpre : Cl.Renders cls ts₀ pre) (hg : isLam g = true)
+    (hnm : ∀ a as, nm = a :: as →
+      cls.isAlpha a = true ∧ a ≠ cDot ∧ ∀ d ∈ as, cls.isAlnum d = true ∧ d ≠ cDot)
+    (hdot : c ≠ cDot)
+    (hbad : if nm = [] then cls.isAlpha c = false else cls.isAlnum c = false) :
+    tokenizeCla cls (pre ++ g :: (nm ++ c :: post))
+      = .error (.InvalidCharacter (pre.length + 1 + nm.length) c) := by
+  unfold tokenizeCla
+  have hne : NameEnd cls (g :: (nm ++ c :: post)) := nameEnd_glyph hcls hg _
+  rw [lex_prefix' hcls hpre 0 _ (Or.inr hne), lex_top_glyph hg]
+  cases nm with
+  | nil =>
+    simp only [if_true] at hbad
+    rw [List.nil_append, lex_lam_first_bad hbad]
+    simp only [List.length_nil, Nat.add_zero, Nat.zero_add]
+    rfl
+  | cons a as =>
+    obtain ⟨ha, _, has⟩ := hnm a as rfl
+    simp only [reduceCtorEq, if_false] at hbad
+    have := lex_lam_acc (cls := cls) (c :: post) as [a] (0 + pre.length + 1 + 1) has
+    rw [List.cons_append, lex_lam_first ha, List.nil_append, this, lex_lam_next_bad hdot hbad]
+    have e : 0 + pre.length + 1 + 1 + as.length = pre.length + 1 + (as.length + 1) := by omega
+    simp only [List.length_cons, e]; rfl
+
+/-- EMPTY BINDER NAME (repair F12 of the crate): a glyph directly followed by the dot is a lexical
+error AT THE DOT, after ANY rendering of complete tokens, whenever the dot is not a letter -/
+theorem tokenizeCla_empty_binder (cls : CharCls) (hcls : Cl.ClsOk cls)
+    (hdot : cls.isAlpha cDot = false) (ts₀ : List CToken) (pre : List Nat) (g : Nat) (post : List Nat)
+    (hpre : Cl.Renders cls ts₀ pre) (hg : isLam g = true) :
+    tokenizeCla cls (pre ++ g :: cDot :: post)
+      = .error (.InvalidCharacter (pre.length + 1) cDot) := by
+  unfold tokenizeCla
+  have hne : NameEnd cls (g :: cDot :: post) := nameEnd_glyph hcls hg _
+  rw [lex_prefix' hcls hpre 0 _ (Or.inr hne), lex_top_glyph hg, lex_lam_first_bad hdot]
+  simp only [Nat.zero_add]
+  rfl
+
+/-- WHITESPACE BEFORE A BINDER, either glyph: a variable name may be followed directly by a binder;
+with or without whitespace in between the string renders the same named tokens -/
+theorem renders_name_glyph (cls : CharCls) (hcls : Cl.ClsOk cls) (ts₀ cts : List CToken)
+    (pre n ws s : List Nat) (g : Nat) (hg : isLam g = true)
+    (hpre : Cl.Renders cls ts₀ pre) (hend : Cl.EndsTop cls pre) (hn : Cl.WfName cls n)
+    (hws : ∀ w ∈ ws, cls.isWs w = true) (hs : Cl.Renders cls cts (g :: s)) :
+    Cl.Renders cls (ts₀ ++ CName n :: cts) (pre ++ (n ++ (ws ++ g :: s))) :=
+  renders_append hcls hpre
+    (.name hn (nameEnd_ws_glyph hcls hg ws s hws) (renders_ws_prefix hs ws hws)) (Or.inl hend)
 
 /-- WHITESPACE BEFORE A BACKSLASH BINDER: a variable name may be followed directly by a backslash
 binder; with or without whitespace in between the string renders the same named tokens
@@ -1179,11 +1309,16 @@ theorem asciiCls_ok : ClsOk asciiCls := by
 
 /-- a character that is not alphanumeric may follow a name -/
 theorem nameEnd_of {c : Nat} {s : List Nat} (h : asciiCls.isAlnum c = false) :
-    NameEnd asciiCls (c :: s) := h
+    NameEnd asciiCls (c :: s) := .inl h
+
+/-- … and so may the glyph `λ` (alphanumeric for this classification, as for Rust's) -/
+theorem nameEnd_lambda {s : List Nat} : NameEnd asciiCls (955 :: s) := .inr rfl
 
 theorem wf_single (c : Nat) (h1 : asciiCls.isAlpha c = true) (h2 : isLam c = false)
     (h3 : c ≠ cDot) : WfName asciiCls [c] :=
-  ⟨⟨c, [], rfl, h1, h2, by simp⟩, by simp [h3]⟩
+  ⟨⟨c, [], rfl, h1, h2, by simp⟩, by simp [h3], by
+    have : c ≠ cLambda := by rintro rfl; revert h2; decide
+    simp [this]⟩
 
 theorem wf_x : WfName asciiCls [120] := wf_single 120 (by decide) (by decide) (by decide)
 theorem wf_y : WfName asciiCls [121] := wf_single 121 (by decide) (by decide) (by decide)
@@ -1273,19 +1408,41 @@ example : tokenizeCla asciiCls [120, 46, 121] = .error (.InvalidCharacter 1 46) 
 example : tokenizeCla asciiCls [120, 35] = .error (.InvalidCharacter 1 35) := rfl
 example : tokenizeCla asciiCls [955, 120, 46, 120, 45] = .error (.InvalidCharacter 4 45) := rfl
 
-/-- `λ` is a letter: it continues a name (`xλy.y` is the name `xλy`, then the invalid `.`) -/
-example : tokenizeCla asciiCls [120, 955, 121, 46, 121] = .error (.InvalidCharacter 3 46) := rfl
-example : tokenizeCla asciiCls [120, 955, 121] = .ok [CName [120, 955, 121]] := rfl
-
 /-- a backslash ends a name and opens a binder: `x\y.y` is `x`, `\y.`, `y` -/
 example : tokenizeCla asciiCls [120, 92, 121, 46, 121]
     = .ok [CName [120], CLambda [121], CName [121]] := rfl
+
+/-- … and so does the other glyph `λ`, although it is a letter (repair F11 of the crate; before it
+`λ` continued the name: `xλy.y` was the name `xλy` followed by the invalid `.`, and `xλy` alone was
+ONE name): `xλy.y` is `x`, `λy.`, `y`, and `xλy` is `x` followed by the unterminated binder `λy` -/
+example : tokenizeCla asciiCls [120, 955, 121, 46, 121]
+    = .ok [CName [120], CLambda [121], CName [121]] := rfl
+example : tokenizeCla asciiCls [120, 955, 121] = .ok [CName [120], CLambda [121]] := rfl
+
+/-- inside a BINDER name `λ` is still an ordinary letter (pinned by a test of the crate): `λxλy.x`
+has ONE binder, named `xλy`, and `\λ.x` has a binder named `λ` -/
+example : tokenizeCla asciiCls [955, 120, 955, 121, 46, 120]
+    = .ok [CLambda [120, 955, 121], CName [120]] := rfl
+example : tokenizeCla asciiCls [92, 955, 46, 120] = .ok [CLambda [955], CName [120]] := rfl
+
+/-- an EMPTY binder name is an error at the dot (repair F12 of the crate; before it `λ.x` lexed as
+a binder with the empty name): `λ.x`, `\.x`, `x λ.x` -/
+example : tokenizeCla asciiCls [955, 46, 120] = .error (.InvalidCharacter 1 46) := rfl
+example : tokenizeCla asciiCls [92, 46, 120] = .error (.InvalidCharacter 1 46) := rfl
+example : tokenizeCla asciiCls [120, 32, 955, 46, 120] = .error (.InvalidCharacter 3 46) := rfl
 
 /-- `x\y.y` is a rendering of these tokens (no separator needed before a backslash) -/
 theorem renders₆ : Renders asciiCls [CName [120], CLambda [121], CName [121]]
     [120, 92, 121, 46, 121] :=
   .name (n := [120]) wf_x (nameEnd_of (by decide)) <|
   .lam (g := 92) (n := [121]) (by decide) wf_y <|
+  .name (n := [121]) wf_y trivial .nil
+
+/-- `xλy.y` is a rendering of the same tokens (no separator needed before `λ` either) -/
+theorem renders₇ : Renders asciiCls [CName [120], CLambda [121], CName [121]]
+    [120, 955, 121, 46, 121] :=
+  .name (n := [120]) wf_x nameEnd_lambda <|
+  .lam (g := 955) (n := [121]) (by decide) wf_y <|
   .name (n := [121]) wf_y trivial .nil
 
 /-- `x\1`: the binder opened by the backslash is validated as usual -/
